@@ -95,6 +95,9 @@ class SFTPFile(BufferedFile):
         self.sftp._log(DEBUG, "close({})".format(u(hexlify(self.handle))))
         if self.pipelined:
             self.sftp._finish_responses(self)
+            # a status collected during an unrelated request was saved,
+            # not raised
+            self._check_exception()
         BufferedFile.close(self)
         try:
             if async_:
@@ -197,8 +200,11 @@ class SFTPFile(BufferedFile):
     def _write(self, data):
         # may write less than requested if it would exceed max packet size
         chunk = min(len(data), self.MAX_REQUEST_SIZE)
+        # register the request under this file (not type(None)) so that a
+        # status collected while some other response is being waited for
+        # reaches _async_response instead of being dropped
         sftp_async_request = self.sftp._async_request(
-            type(None),
+            self,
             CMD_WRITE,
             self.handle,
             int64(self._realpos),
@@ -210,10 +216,15 @@ class SFTPFile(BufferedFile):
         ):
             while len(self._reqs):
                 req = self._reqs.popleft()
+                if req not in self.sftp._expecting:
+                    # already collected (and recorded) by another
+                    # _read_response() call
+                    continue
                 t, msg = self.sftp._read_response(req)
                 if t != CMD_STATUS:
                     raise SFTPError("Expected status")
                 # convert_status already called
+            self._check_exception()
         return chunk
 
     def write(self, data):
@@ -598,10 +609,13 @@ class SFTPFile(BufferedFile):
     def _async_response(self, t, msg, num):
         if t == CMD_STATUS:
             # save exception and re-raise it on next file operation
+            is_write = num in self._reqs
             try:
                 self.sftp._convert_status(msg)
             except Exception as e:
                 self._saved_exception = e
+            if is_write:
+                return
             return
         if t != CMD_DATA:
             raise SFTPError("Expected data")
